@@ -24,16 +24,44 @@ def ierrJ : IErr → Json
   | .internal w => arr [Json.str "INTERNAL", Json.str w]
   | .outOfFuel => arr [Json.str "OUT-OF-FUEL", Json.str ""]
 
+def altPerson (j : Json) : Except String Person := do
+  let a ← j.getArr?
+  let g := fun (i : Nat) => do
+    let l ← (a[i]!).getArr?
+    l.toList.mapM jsonToStr
+  pure { first := ← g 0, middle := ← g 1, prelast := ← g 2, last := ← g 3, lineage := ← g 4 }
+
+/-- an entry as another reader (`bib_format=`) delivers it -/
+def altEntry (j : Json) : Except String (Str × Bib.Entry) := do
+  let key ← getStr j "key"
+  let ty ← getStr j "type"
+  let ot ← getStr j "orig_type"
+  let fields ← (← getArr j "fields").mapM fun f => do
+    let a ← f.getArr?
+    pure ((← jsonToStr a[0]!), (← jsonToStr a[1]!))
+  let persons ← (← getArr j "persons").mapM fun r => do
+    let a ← r.getArr?
+    let ps ← (← (a[1]!).getArr?).toList.mapM altPerson
+    pure ((← jsonToStr a[0]!), ps)
+  pure (key, { key := key, type := ty, origType := ot, fields := fields, persons := persons })
+
 def bstrun (j : Json) : Except String Json := do
   let bst ← getStr j "bst"
   let bibs ← getStrList j "bibs"
   let cites ← getStrList j "citations"
   let mc ← getInt j "min_crossrefs"
   let fuel ← getNat j "fuel"
+  let alt ← match j.getObjVal? "alt" with
+    | .ok (Json.obj _) => do
+      let a ← j.getObjVal? "alt"
+      let es ← (← getArr a "entries").mapM altEntry
+      let pre ← getStrList a "preamble"
+      pure (some (es, pre))
+    | _ => pure none
   match Bst.parseFile bst with
   | .error _ => pure (obj [("out", obj [("error", arr [Json.str "BST-SYNTAX", Json.str ""])])])
   | .ok prog =>
-    match run fuel prog { bibTexts := bibs, citations := cites, minCrossrefs := mc } with
+    match run fuel prog { bibTexts := bibs, citations := cites, minCrossrefs := mc, alt := alt } with
     | .error (e, _) => pure (obj [("out", obj [("error", ierrJ e)])])
     | .ok o =>
       pure (obj [("out", obj [("bbl", strToJson o.bbl), ("reports", arr (o.reports.map reportJ)),
